@@ -310,9 +310,9 @@ impl BodyReader {
 
         let header_defined = Self::header_defined(http10, header_lookup)?;
 
-        // Implicitly we know that CloseDelimited means no header indicated that
-        // there was a body.
-        let has_body_header = header_defined != Self::CloseDelimited;
+        // A transfer-encoding we do not dechunk (or chunked on HTTP/1.0) still announces a body.
+        let has_body_header = header_lookup("content-length").is_some()
+            || header_lookup("transfer-encoding").is_some();
 
         let has_no_body =
             // https://datatracker.ietf.org/doc/html/rfc2616#section-4.3
